@@ -1,3 +1,8 @@
 ; shuffle.smt2 -- specification symbols for property C20
 ; rf is the Feistel round function, kept uninterpreted: the permutation argument holds for any round function.
 (declare-fun rf ((_ BitVec 64) (_ BitVec 64)) (_ BitVec 64))
+; the physical training file as a ghost: its length and its content by offset (uninterpreted)
+(declare-fun fileLen () (_ BitVec 64))
+(declare-fun fileByte ((_ BitVec 64)) (_ BitVec 8))
+; si names the value computed by shuffleIndex (a pure function of its three arguments)
+(declare-fun si ((_ BitVec 64) (_ BitVec 64) (_ BitVec 64)) (_ BitVec 64))
